@@ -337,7 +337,9 @@ func aggregateRows(selectList sql.SelectList, groupBy []sql.ColumnReference, row
 	groupKey := func(row *storage.Row) string {
 		var key string
 		for _, idx := range groupByIdxs {
-			key += fmt.Sprintf("%v", row.Vals[idx])
+			// type and quoted value keep distinct tuples apart: (1, 11) is not
+			// (11, 1) and the string "1" is not the number 1
+			key += fmt.Sprintf("%T:%q;", row.Vals[idx], fmt.Sprint(row.Vals[idx]))
 		}
 		return key
 	}
